@@ -8,6 +8,8 @@ import (
 	"context"
 	"errors"
 	"fmt"
+	"net"
+	"os"
 	"sync"
 	"time"
 
@@ -58,7 +60,7 @@ type Svc struct {
 	// PlainCtxErrors: when a request's context has ended the service reports a plain error that does
 	// NOT wrap the context's error (a StoreClient is free to do so; the HTTP client happens to wrap it).
 	PlainCtxErrors bool
-	count      int
+	count          int
 	// MaxRequests bounds the requests of one scenario (default 50000). A client
 	// that exceeds it is spinning; further requests park until Release so that
 	// virtual time can advance and the harness can report it.
@@ -105,9 +107,13 @@ func (s *Svc) EverActive(name string, version uint32, value []byte) bool {
 	return ok && b == string(value)
 }
 
-func (s *Svc) SetDefault(name string, b Beh)   { s.mu.Lock(); s.def[name] = b; s.mu.Unlock() }
-func (s *Svc) SetScript(name string, bs []Beh) { s.mu.Lock(); s.script[name] = append([]Beh{}, bs...); s.mu.Unlock() }
-func (s *Svc) ResetCount()                     { s.mu.Lock(); s.count = 0; s.mu.Unlock() }
+func (s *Svc) SetDefault(name string, b Beh) { s.mu.Lock(); s.def[name] = b; s.mu.Unlock() }
+func (s *Svc) SetScript(name string, bs []Beh) {
+	s.mu.Lock()
+	s.script[name] = append([]Beh{}, bs...)
+	s.mu.Unlock()
+}
+func (s *Svc) ResetCount() { s.mu.Lock(); s.count = 0; s.mu.Unlock() }
 
 // Release ends every hanging request (they fail) and makes later hangs fail fast.
 func (s *Svc) Release() {
@@ -132,8 +138,8 @@ func (s *Svc) OpenGate() {
 // InFlight reports how many requests for name are being served right now.
 func (s *Svc) InFlight(name string) int { s.mu.Lock(); defer s.mu.Unlock(); return s.inflight[name] }
 
-func (s *Svc) Log() []Req { s.mu.Lock(); defer s.mu.Unlock(); return append([]Req{}, s.log...) }
-func (s *Svc) LogLen() int { s.mu.Lock(); defer s.mu.Unlock(); return len(s.log) }
+func (s *Svc) Log() []Req                  { s.mu.Lock(); defer s.mu.Unlock(); return append([]Req{}, s.log...) }
+func (s *Svc) LogLen() int                 { s.mu.Lock(); defer s.mu.Unlock(); return len(s.log) }
 func (s *Svc) MaxInflight(name string) int { s.mu.Lock(); defer s.mu.Unlock(); return s.maxInfl[name] }
 
 func (s *Svc) CountFor(name string) int {
@@ -205,6 +211,14 @@ func (s *Svc) do(ctx context.Context, op, name string, old api.SecretVersion) (*
 	case "denied":
 		finish("error:denied", nil)
 		return nil, api.ErrAccessDenied
+	case "reqtimeout":
+		// the REQUEST timed out (an http.Client with its own Timeout reports this) - the caller's context is alive
+		finish("error:injected", nil)
+		return nil, fmt.Errorf("fake service: request timed out: %w", context.DeadlineExceeded)
+	case "nettimeout":
+		// a timeout-class transport error that has nothing to do with any context
+		finish("error:injected", nil)
+		return nil, &net.OpError{Op: "dial", Net: "tcp", Err: os.ErrDeadlineExceeded}
 	case "gate":
 		s.mu.Lock()
 		if s.gate == nil {
@@ -330,22 +344,34 @@ func (c *Cache) Read() ([]byte, error) {
 	return append([]byte(nil), c.data...), nil
 }
 
-func (c *Cache) Data() []byte { c.mu.Lock(); defer c.mu.Unlock(); return append([]byte(nil), c.data...) }
-func (c *Cache) NumWrites() int { c.mu.Lock(); defer c.mu.Unlock(); return len(c.Writes) }
+func (c *Cache) Data() []byte {
+	c.mu.Lock()
+	defer c.mu.Unlock()
+	return append([]byte(nil), c.data...)
+}
+func (c *Cache) NumWrites() int     { c.mu.Lock(); defer c.mu.Unlock(); return len(c.Writes) }
 func (c *Cache) NumWriteCalls() int { c.mu.Lock(); defer c.mu.Unlock(); return c.nWrite }
 
 // ---------------------------------------------------------------- clock
 
 // Clock is a settable wall clock in whole seconds.
 type Clock struct {
-	mu  sync.Mutex
-	now int64
+	mu     sync.Mutex
+	now    int64
+	fracMs int64 // constant sub-second part of every reading (a clock is rarely on a whole second)
 }
 
+// SetFrac makes every reading fall ms milliseconds after the whole second.
+func (c *Clock) SetFrac(ms int) { c.mu.Lock(); c.fracMs = int64(ms); c.mu.Unlock() }
+
 func NewClock(start int64) *Clock { return &Clock{now: start} }
-func (c *Clock) Now() time.Time  { c.mu.Lock(); defer c.mu.Unlock(); return time.Unix(c.now, 0) }
-func (c *Clock) Unix() int64     { c.mu.Lock(); defer c.mu.Unlock(); return c.now }
-func (c *Clock) Advance(s int64) { c.mu.Lock(); c.now += s; c.mu.Unlock() }
+func (c *Clock) Now() time.Time {
+	c.mu.Lock()
+	defer c.mu.Unlock()
+	return time.Unix(c.now, c.fracMs*1000000)
+}
+func (c *Clock) Unix() int64      { c.mu.Lock(); defer c.mu.Unlock(); return c.now }
+func (c *Clock) Advance(s int64)  { c.mu.Lock(); c.now += s; c.mu.Unlock() }
 
 func (s *Svc) ctxErr(err error) error {
 	s.mu.Lock()
